@@ -52,8 +52,28 @@ Record file := { f_dur : data; f_pend : list pop }.
 
 Definition empty_file := {| f_dur := []; f_pend := [] |}.
 
-(** What a running process reads. *)
-Definition f_cur (f : file) : data := fold_right (fun p c => apply_pop c p) (f_dur f) (f_pend f).
+(** What a running process reads: the pending modifications applied, oldest
+    first.  [f_cur_spec] is the definition; [f_cur] computes the same list
+    (lemma [f_cur_spec_eq] in Proofs/FS.v) in linear time for the usual run of
+    sequential writes, by keeping the content reversed together with its
+    length, so that a save made of 10^5 write calls stays cheap to judge. *)
+Definition f_cur_spec (f : file) : data := fold_right (fun p c => apply_pop c p) (f_dur f) (f_pend f).
+
+Definition rv (l : data) : data := rev_append l [].
+
+Definition apply_pop_r (st : data * N) (p : pop) : data * N :=
+  match p with
+  | PWrite off d =>
+      if off =? snd st then (rev_append d (fst st), snd st + nlen d)
+      else let c := write_at (rv (fst st)) off d in (rv c, nlen c)
+  | PTrunc n => let c := apply_pop (rv (fst st)) p in (rv c, nlen c)
+  end.
+
+Definition f_cur (f : file) : data :=
+  match f_pend f with
+  | [] => f_dur f
+  | ps => rv (fst (fold_right (fun p st => apply_pop_r st p) (rv (f_dur f), nlen (f_dur f)) ps))
+  end.
 
 (** Split a pending write into one-element writes (a crash may cut a write). *)
 Fixpoint expand_write (off : N) (d : data) : list pop :=
